@@ -1,4 +1,5 @@
 """Generic driver of one property check.  A property module provides a Spec (below)."""
+import itertools
 import json
 import os
 import random
@@ -109,6 +110,7 @@ def classify(spec, batch, cases, results, report):
             except Exception as e:
                 why = None
         if why:
+            c.meta["_batch"] = batch
             report.failures.append((c, r, why))
             continue
         if r["impl"] is None or r["model"] is None:
@@ -196,6 +198,7 @@ def main_check(spec, tier, replay=None):
     known_lines = []
     theorems, assumptions, proof_err, corr_err = [], {}, None, None
     scratch = Scratch(spec.pid)
+    scratch_ref = [scratch]
     binary = None
     try:
         # ---- 1. proofs
@@ -256,6 +259,31 @@ def main_check(spec, tier, replay=None):
             # smallest first; shrink the first one
             unknown_failures.sort(key=lambda t: len(t[0].args))
             c, r, why = unknown_failures[0]
+            # greedy shrinking: any smaller variant that still fails (for whatever reason) replaces the case
+            try:
+                b0 = c.meta.pop("_batch", None)
+                rounds = 0
+                while b0 is not None and binary and rounds < 6:
+                    rounds += 1
+                    cands = list(itertools.islice(spec.shrink(c), 40))
+                    if not cands:
+                        break
+                    sub = Report()
+                    nb = Batch("shrink%d" % rounds, cands, config=b0.config, env=b0.env, timeout=min(b0.timeout, 300), correspondence=b0.correspondence)
+                    nb.parallel = False
+                    run_batches(spec, scratch_ref[0], binary, [nb], sub)
+                    still = [(c2, r2, w2) for (c2, r2, w2) in sub.failures if not (spec.known_key(c2, r2) in known_keys)]
+                    if not still:
+                        break
+                    still.sort(key=lambda t: len(t[0].args))
+                    if len(still[0][0].args) >= len(c.args):
+                        break
+                    c, r, why = still[0]
+                    c.meta.pop("_batch", None)
+            except Exception:
+                log(traceback.format_exc())
+            for (cc, _, _) in unknown_failures:
+                cc.meta.pop("_batch", None)
             cfgs = {}
             path = write_replay(spec.pid, "failing-input", {
                 "why": why, "cases": [c.to_json()], "impl": r.get("impl"), "model": r.get("model"),
